@@ -4,8 +4,12 @@
    prefix sums of their delays, "every planned stage fired before the cut".
    Clause by clause (spec_okb / Spec):
      1 the next stage starts only after the previous one has fired, cleanups in reverse order:
-       the observed stage log equals the plan walked along the clock, stopping at the first
-       stage that has not fired when the run is cut (nothing may start after it);
+       the observed stage log is a walk along the plan (log_okb / Walk): each logged stage started at
+       exactly the instant its predecessor COMPLETED (the whole chain of the Deferred it returned, also
+       when that Deferred was handed over already fired but paused); the walk must go on after a stage
+       that completed before the cut and must stop at one that is due after it or never; a stage due
+       exactly at the cut instant has lost (clauses 3/4 count it as not completed) but may be run by
+       the reactor afterwards;
      2 exactly one outcome between startTest and stopTest;
      3 success iff every planned stage fired in time, none raised / failed / logged an error /
        dropped a failed Deferred / started a poller, and no leftover delayed call was still
@@ -45,23 +49,36 @@ Definition log_eqb : list (nat * time) -> list (nat * time) -> bool := list_eqb 
 
 (* ---- the plan: which stages are meant to run, in which order ---- *)
 Definition stage_raises (st : stage) : bool :=
-  match s_ret st with RRaise _ | RLater _ (Some _) => true | _ => false end.
+  match s_ret st with
+  | RRaise _ | RFired (Some _) | RLater _ (Some _) | RChained _ (Some _) => true
+  | _ => false
+  end.
 
 Definition plan (p : program) : list (nat * stage) :=
   (id_setup, i_setup p)
   :: (if stage_raises (i_setup p) then [] else [(id_body, i_body p); (id_teardown, i_teardown p)])
   ++ rev (number_from 0 (i_cleanups p)).           (* cleanups in reverse order of registration *)
 
-(* the instant at which a stage started at t has fired, if it fires before the cut instant C *)
-Definition fires_at (C t : time) (st : stage) : option time :=
+(* when a stage started at instant t has completed: at once, when the whole chain of the Deferred it returned
+   has finished - whether or not that Deferred already counts as fired -, or never *)
+Inductive whenc := Immediately | At (u : time) | NeverC.
+Definition completes (t : time) (st : stage) : whenc :=
   match s_ret st with
-  | RReturn | RRaise _ => Some t
-  | RLater d _ => if Nat.ltb (t + d) C then Some (t + d) else None
-  | RNever => None
+  | RReturn | RRaise _ | RFired _ => Immediately
+  | RLater d _ | RChained d _ => At (t + d)
+  | RNever => NeverC
   end.
 
-(* each stage starts when its predecessor fired; the log stops at the first stage that does not
-   fire before the cut.  Second component: every planned stage fired. *)
+(* the instant at which a stage started at t has fired, if it fires before the cut instant C *)
+Definition fires_at (C t : time) (st : stage) : option time :=
+  match completes t st with
+  | Immediately => Some t
+  | At u => if Nat.ltb u C then Some u else None
+  | NeverC => None
+  end.
+
+(* each stage starts when its predecessor fired; the walk stops at the first stage that does not
+   fire before the cut.  Second component: every planned stage fired (within the timeout, uninterrupted). *)
 Fixpoint expected_log (C t : time) (pl : list (nat * stage)) : list (nat * time) * bool :=
   match pl with
   | [] => ([], true)
@@ -71,6 +88,35 @@ Fixpoint expected_log (C t : time) (pl : list (nat * stage)) : list (nat * time)
       | None => ([(k, t)], false)
       end
   end.
+
+Definition is_nil {A} (l : list A) : bool := match l with [] => true | _ => false end.
+
+(* the stage log is a walk along the plan: every logged stage started at the instant its predecessor
+   completed; after a stage that completes at once or strictly before the cut the next one MUST have started;
+   after one that is due after the cut, or never, nothing more may start; one that is due exactly AT the cut
+   instant lost against the timeout / the interrupt, but the reactor may still have run it afterwards (the
+   other calls of the same iteration, the obligatory iterations): then the walk may go on, at that instant *)
+Fixpoint log_okb (C t : time) (pl : list (nat * stage)) (log : list (nat * time)) : bool :=
+  match pl, log with
+  | [], _ => is_nil log
+  | _ :: _, [] => false
+  | (k, st) :: r, (k', t') :: lr =>
+      Nat.eqb k k' && Nat.eqb t t'
+      && match completes t st with
+         | Immediately => log_okb C t r lr
+         | At u => if Nat.ltb u C then log_okb C u r lr
+                   else if Nat.eqb u C then is_nil lr || log_okb C u r lr
+                   else is_nil lr
+         | NeverC => is_nil lr
+         end
+  end.
+
+Inductive Walk (C : time) : time -> list (nat * stage) -> list (nat * time) -> Prop :=
+| W_end : forall t, Walk C t [] []
+| W_now : forall t k st r l, completes t st = Immediately -> Walk C t r l -> Walk C t ((k, st) :: r) ((k, t) :: l)
+| W_go : forall t k st r l u, completes t st = At u -> u <= C -> Walk C u r l -> Walk C t ((k, st) :: r) ((k, t) :: l)
+| W_late : forall t k st r u, completes t st = At u -> C <= u -> Walk C t ((k, st) :: r) [(k, t)]
+| W_never : forall t k st r, completes t st = NeverC -> Walk C t ((k, st) :: r) [(k, t)].
 
 (* a stage that completes without exception or failed Deferred, logs no error, drops no failed Deferred,
    starts no poller (a poller always has its next instance scheduled) *)
@@ -87,8 +133,8 @@ Definition completed (p : program) : bool := snd (expected_log (cut_instant p) 0
 Definition all_clean (p : program) : bool := forallb (fun ks => clean_stage (snd ks)) (plan p).
 
 Definition spec_okb (p : input) (o : obs) : bool :=
-  (* the next stage starts only after the previous one has fired; cleanups in reverse order *)
-  log_eqb (o_log o) (fst (expected_log (cut_instant p) 0 (plan p)))
+  (* the next stage starts only after the previous one has completed; cleanups in reverse order *)
+  log_okb (cut_instant p) 0 (plan p) (o_log o)
   (* exactly one outcome between startTest and stopTest *)
   && one_outcome (o_events o)
   (* success iff every stage completed cleanly in time, nothing logged, nothing dropped, nothing left scheduled *)
@@ -100,21 +146,13 @@ Definition spec_okb (p : input) (o : obs) : bool :=
   (* whatever happened: no pending calls, the log observers are those installed before *)
   && Nat.eqb (o_pending o) 0 && o_observers_same o.
 
-(* the ForBrokenTwisted variant iterates the reactor after the result is decided: a stage
-   Deferred due exactly at the cut instant would then still fire.  Outside the model. *)
-Fixpoint tie_free (C t : time) (pl : list (nat * stage)) : bool :=
-  match pl with
-  | [] => true
-  | (_, st) :: r =>
-      (match s_ret st with RLater d _ => negb (Nat.eqb (t + d) C) | _ => true end)
-      && match fires_at C t st with Some t' => tie_free C t' r | None => true end
-  end.
-Definition wfb (p : input) : bool := negb (i_broken p) || tie_free (cut_instant p) 0 (plan p).
+(* every program of the input type is in the domain of the model *)
+Definition wfb (p : input) : bool := true.
 Definition wf (p : input) : Prop := wfb p = true.
 
 (* ---- readable form ---- *)
 Definition Spec (p : input) (o : obs) : Prop :=
-  o_log o = fst (expected_log (cut_instant p) 0 (plan p))
+  Walk (cut_instant p) 0 (plan p) (o_log o)
   /\ (exists x, o_events o = [StartTest; x; StopTest] /\ In x [AddSuccess; AddError; AddFailure; AddSkip])
   /\ (In AddSuccess (o_events o) <-> (completed p = true /\ all_clean p = true /\ o_unrun o = 0))
   /\ (completed p = false ->
